@@ -127,9 +127,10 @@ class PositionCodec:
             if _is_double_width:
                 if self.encoding == types.PositionEncodingKind.Utf32:
                     _client_index += 1
-                if self.encoding == types.PositionEncodingKind.Utf8:
-                    _client_index += 4
-                _client_index += 2
+                elif self.encoding == types.PositionEncodingKind.Utf8:
+                    _client_index += 6
+                else:
+                    _client_index += 2
             else:
                 _client_index += 1
             utf32_index += 1
